@@ -6,7 +6,7 @@
    [ops_of KLong s] / [ops_of KDbl s] are the long / double instrument; [agg o c xs] is the aggregation that
    recorded the values xs in this order under config c; [In_bucket bs i v] says b[i-1] < v <= b[i]
    (no lower limit for i = 0, no upper limit for i = length bs). *)
-From V Require Import C07.Spec C07.ProofsBucket C07.ProofsAgg C07.ProofsNum C07.ProofsSeries C07.ProofsSpec.
+From V Require Import C07.Spec C07.ProofsBucket C07.ProofsAgg C07.ProofsNum C07.ProofsSeries C07.ProofsSim C07.ProofsSpec C07.ProofsMachine.
 From V Require Import Gen.Consts.
 From Coq Require Import Permutation.
 Local Open Scope Z_scope.
@@ -137,10 +137,30 @@ Print Assumptions diff_inverts_merge_sum_refuted.
    values so far, and nothing only when that list is empty *)
 Theorem reader_lossless :
   forall o c, exact_add o -> forall temps l, Forall (valid_sop temps) l ->
-    Forall2 (ok o c) (expect_sops temps (repeat [] (length temps)) [] l)
+    Forall2 (fun e out => match out with None => snd e = [] | Some h => h = agg o c (snd e) end)
+            (expect_sops temps (repeat [] (length temps)) [] l)
             (run_sops o c temps (sstate0 (length temps)) l).
 Proof. exact series_lossless_lemma. Qed.
 Print Assumptions reader_lossless.
+(* the double instrument, whose addition rounds: for every history every field but the sum is that of the exact
+   summary (the sum too whenever the SPEC decides it: model_meets_spec_readers below) *)
+Theorem reader_lossless_double_fields :
+  forall s c temps l, Forall (valid_sop temps) l ->
+    Forall2 (fun e out => match out with
+                          | None => snd e = []
+                          | Some h => nosum h = nosum (agg (dblx_ops s) c (snd e))
+                          end)
+            (expect_sops temps (repeat [] (length temps)) [] l)
+            (run_sops (dbl_ops s) c temps (sstate0 (length temps)) l).
+Proof. exact reader_double_fields_lemma. Qed.
+Print Assumptions reader_lossless_double_fields.
+Theorem machine_double_fields :
+  forall s c l,
+    Forall2 (fun h h' => nosum h = nosum h')
+            (run_aops (dbl_ops s) c (init_regs (dbl_ops s) c) l)
+            (run_aops (dblx_ops s) c (init_regs (dblx_ops s) c) l).
+Proof. exact machine_double_fields_lemma. Qed.
+Print Assumptions machine_double_fields.
 
 (* ---- the model meets the executable SPEC (what ./check evaluates on the implementation's points) ---- *)
 Theorem model_meets_spec :
@@ -150,16 +170,31 @@ Theorem model_meets_spec :
     check_point k s (c_bounds c) x xs (point_of (agg (ops_of k s) c xs)) = [].
 Proof. exact check_point_agg. Qed.
 Print Assumptions model_meets_spec.
-Theorem model_meets_spec_readers_long :
-  forall s c temps l,
-    0 <= s -> sorted (c_bounds c) ->
+(* every sequence of New / Aggregate / Merge / ToPoint operations over the registers, either kind *)
+Theorem model_meets_spec_machine :
+  forall k s c, 0 <= s -> forall l,
+    sorted (c_bounds c) -> Forall no_diff l -> Forall (good_op k s) l ->
+    Forall (fun y => Z.of_nat (length (y_vals y)) < U64) (run_sym (c_rmm c) (repeat (sym0 (c_rmm c)) NREG) l) ->
+    spec_agg k s c l (map point_of (run_aops (ops_of k s) c (init_regs (ops_of k s) c) l)) = [].
+Proof. exact machine_meets_spec_lemma. Qed.
+Print Assumptions model_meets_spec_machine.
+(* every history of Record / Collect over readers of mixed temporality, either kind *)
+Theorem model_meets_spec_readers :
+  forall k s c, 0 <= s -> forall temps l,
+    sorted (c_bounds c) ->
     Forall (valid_sop temps) l ->
-    Forall (fun op => match op with SRec v => Z.abs v <= 2 ^ 53 | SCollect _ => True end) l ->
+    Forall (fun op => match op with SRec v => good_val k s v | SCollect _ => True end) l ->
     Z.of_nat (n_rec l) < U64 ->
-    spec_series KLong s c temps l
-      (map (option_map point_of) (run_sops (long_ops s) c temps (sstate0 (length temps)) l)) = [].
-Proof. exact series_meets_spec_long. Qed.
-Print Assumptions model_meets_spec_readers_long.
+    spec_series k s c temps l
+      (map (option_map point_of) (run_sops (ops_of k s) c temps (sstate0 (length temps)) l)) = [].
+Proof. exact series_meets_spec_lemma. Qed.
+Print Assumptions model_meets_spec_readers.
+(* the hypothesis on the values holds for every finite double and for every int64 with |v| <= 2^53 (F8b beyond) *)
+Theorem good_values :
+  (forall s b d, 0 <= s -> decode b = Some d -> good_val KDbl s (to_scale s d)) /\
+  (forall s v, 0 <= s -> Z.abs v <= 2 ^ 53 -> good_val KLong s v).
+Proof. exact (conj good_val_double good_val_long). Qed.
+Print Assumptions good_values.
 
 (* ---- the defaults read from the sources are the OpenTelemetry defaults, sorted, with min/max on ---- *)
 Theorem default_boundaries_spec :
@@ -169,3 +204,6 @@ Theorem default_boundaries_spec :
   kHistRecordMinMaxDefaultDouble = true /\ kHistRecordMinMaxDefaultLong = true.
 Proof. exact default_bounds_lemma. Qed.
 Print Assumptions default_boundaries_spec.
+Theorem default_config_spec : forall k s c, eff_cfg (ops_of k s) c = spec_cfg s c.
+Proof. exact eff_cfg_spec. Qed.
+Print Assumptions default_config_spec.
